@@ -344,6 +344,66 @@ def ob_add_from_import(run, mir, rp):
     e2.prove_each(run, ob, ex, [], claims, {}, fam_replay(rp, "add-from-import", only=["optional", "union", "tuple", "abstract", "newtype", "interface"]))
 
 
+def ob_class_imports(run, mir, rp):
+    ob = run.ob("newtype-and-abc-registered", "E2", "convert_class: a type alias is emitted as a call of NewType only after add_from_import(typing, "
+                "NewType); extract_class: ABC is appended to the parents of an interface only after add_from_import(abc, ABC)",
+                ["convert_class (TypeAlias)", "extract_class"])
+    import convkern
+    claims, n = [], 0
+    arm = convkern.Arm(run, mir, "convert_class", "src/generate/convert/class.rs", "TypeAlias")
+    for p in arm.ends:
+        if not (p.kind == "return" and isinstance(p.ret, Agg) and p.ret.variant == "Ok"):
+            continue
+        core = p.ret.fields[0]
+        txt = str(core)
+        if "NewType" not in txt:
+            claims.append((arm.ex, z3.Implies(conj(p.cond), z3.BoolVal(False))))
+            continue
+        n += 1
+        regs = [e_ for e_ in p.events if e_["name"].endswith("add_from_import") and len(e_["args"]) >= 3 and
+                isinstance(e_["args"][1], StrC) and e_["args"][1].s == "typing" and isinstance(e_["args"][2], StrC) and e_["args"][2].s == "NewType"]
+        claims.append((arm.ex, z3.Implies(conj(p.cond), z3.BoolVal(bool(regs)))))
+    fn = e2.find1(mir, file="src/generate/convert/class.rs", name="extract_class")
+    ex2 = Exec(mir, max_paths=60000)
+    st2 = State()
+    a2 = []
+    for an, aty in fn.args:
+        t = aty.strip()
+        a2.append(Ref(ex2.new_cell(st2, Opq(z3.Const(f"x{an}", Val), t.lstrip("&").replace("mut ", "").strip()))) if t.startswith("&") and not t.startswith("&[") else Opq(z3.Const(f"x{an}", Val), t))
+    ends2 = e2.run_kernel(run, ex2, fn, a2, st2)
+    n_abc = 0
+    for p in ends2:
+        names = [e_["name"].split("::")[-1] for e_ in p.events]
+        abc_at = None
+        for i, e_ in enumerate(p.events):
+            if names[i] == "chain" and any(isinstance(a, Seq) and any(pt[0] == "item" and "ABC" in str(pt[1]) for pt in a.parts) for a in e_["args"]):
+                abc_at = i
+        if abc_at is None:
+            continue
+        n_abc += 1
+        regs = [i for i, e_ in enumerate(p.events) if e_["name"].endswith("add_from_import") and len(e_["args"]) >= 3 and
+                isinstance(e_["args"][1], StrC) and e_["args"][1].s == "abc" and isinstance(e_["args"][2], StrC) and e_["args"][2].s == "ABC"]
+        claims.append((ex2, z3.Implies(conj(p.cond), z3.BoolVal(bool(regs) and regs[0] < abc_at))))
+    if not n or not n_abc:
+        raise Unsupported(f"NewType paths {n}, ABC paths {n_abc}")
+    bad = 0
+    for exx, cl in claims:
+        r, _m, dt, _ = e2.solve(exx, [z3.Not(cl)])
+        ob.solver_s += dt
+        ob.queries += 1
+        if r != z3.unsat:
+            bad += 1
+    ob.reach = "sat"
+    if not bad:
+        ob.discharged(f"unsat for {len(claims)} path claims ({n} NewType paths, {n_abc} ABC paths)")
+    else:
+        rep = fam_replay(rp, "class-imports", only=["newtype", "abstract", "interface"])({})
+        if rep.get("reproduced"):
+            ob.violated(rep["role"], {"claims_failed": bad}, rep, rep["detail"])
+        else:
+            ob.inconclusive(f"{bad} path claims fail but the emitted modules import what they use")
+
+
 def ob_prepend(run, mir, rp):
     ob = run.ob("imports-prepended", "E2", "gen_arguments: the collected imports are placed before the converted statements "
                 "of the module", ["gen_arguments"])
@@ -382,7 +442,7 @@ def run(run):
                "outside: free-name analysis of whole outputs; NewType / ABC in convert_class (HashMap re-ordering loops)")
     run.trusted += ["rustc nightly MIR dump", "mirsym MIR semantics", "z3", "python3 ast (replay)"]
     run.bounds = {"accumulator_entries": 2}
-    for f in (ob_pairing, ob_sqrt_abc, ob_add_import, ob_add_from_import, ob_prepend):
+    for f in (ob_pairing, ob_sqrt_abc, ob_add_import, ob_add_from_import, ob_class_imports, ob_prepend):
         try:
             f(run, mir, rp)
         except Unsupported as e:
